@@ -232,6 +232,12 @@ pub fn units(tier: Tier, _seed: u64) -> Vec<Unit> {
         if n >= 2 && n <= 8 { let kk = (2 * n + 10).min(40); u.push(unit!(format!("C11/Roofing({n},{n})/k={kk}"), linear(VK::Roofing(n, n), kk, Kind::Tol(1e-5)))); }
         u.push(unit!(format!("C11/CyberCycle({n})/k={k}"), linear(VK::CyberCycle(n), k.max(14), Kind::Exact)));
     }
+    // window lengths beyond the exhaustive range (the recursion is linear: one path, decided by the normal form and linear queries)
+    for &n in &(if q { vec![33usize, 65, 100] } else { vec![33usize, 64, 65, 100, 128, 200] }) {
+        let k = n + 12;
+        u.push(unit!(format!("C11/CyberCycle({n})/k={k}"), linear(VK::CyberCycle(n), k, Kind::Exact)));
+        u.push(unit!(format!("C11/SuperSmoother({n})/k={k}"), linear(VK::SuperSmoother(n), k, Kind::Tol(1e-5))));
+    }
     if !q { u.push(unit!("C11/Roofing(10,10)/k=40", linear(VK::Roofing(10, 10), 40usize, Kind::Tol(1e-5)))); }
     for g in [0.0, 0.5, 0.8] { u.push(unit!(format!("C11/LaguerreFilter({g})/k=12"), linear(VK::LaguerreFilter(g), 12usize, Kind::Exact))); }
     u.push(unit!("C11/LaguerreFilter(gamma symbolic)/k=5", laguerre_filter_sym_gamma(5usize)));
@@ -266,13 +272,18 @@ pub fn units(tier: Tier, _seed: u64) -> Vec<Unit> {
         u.push(unit!(format!("C11/PFE({n},Echo)/k={k}/sample-path"), pfe(n, k, VK::Echo)));
         u.push(unit!(format!("C11/PFE({n},Ema(3))/k={k}/sample-path"), pfe(n, k, VK::Ema(3))));
     }
+    for &n in &(if q { vec![35usize, 68] } else { vec![35usize, 37, 48, 68, 99] }) {
+        let k = n + 4;
+        u.push(unit!(format!("C11/EFT({n},Echo)/k={k}/sample-path"), fisher(n, k, VK::Echo)));
+        u.push(unit!(format!("C11/PFE({n},Echo)/k={k}/sample-path"), pfe(n, k, VK::Echo)));
+    }
     for x in u.iter_mut().skip(first_big) { x.concolic = Some(13); x.budget_s = 40.0; x.max_decisions = 60000; }
     u
 }
 pub fn meta() -> Meta {
     Meta {
         functions: vec!["SuperSmoother", "RoofingFilter", "LaguerreFilter", "LaguerreRSI", "CyberCycle", "TrendFlex", "ReFlex", "EhlersFisherTransform (identity and Ema(2) average)", "PolarizedFractalEfficiency (identity and Ema(2) average) — each ::{new,update,last}"],
-        bounds: "SuperSmoother/Roofing(N,4 and N,N)/CyberCycle: N in {1..10,12,16,20,32} (quick) / {1..10,16,20,48} (thorough), k = max(2N+4,12) capped at 40; LaguerreFilter gamma in {0,0.5,0.8,0.95,0.995}, k=12, and symbolic gamma in [0,1), k=5; LaguerreRSI N in {2,3} / {2..5,10}, k=4/5, all comparison paths (up to the 20000-path cap, reported when hit); TrendFlex/ReFlex N in {3,4} / {3..6,10,16}, k=N+3; EFT N in {2,3} / {2,3,4}; PFE N in {3,4} / {3..6}, k=N+3; inputs unconstrained reals (|x|<=1 where the obligation is a 1e-5 tolerance); in addition TrendFlex, ReFlex, LaguerreRSI, EFT, PFE at N in {8,16} (quick) / {6,8,12,16,32}, k=N+6, along a sampled comparison path",
+        bounds: "SuperSmoother/Roofing(N,4 and N,N)/CyberCycle: N in {1..10,12,16,20,32} (quick) / {1..10,16,20,48} (thorough), k = max(2N+4,12) capped at 40; LaguerreFilter gamma in {0,0.5,0.8,0.95,0.995}, k=12, and symbolic gamma in [0,1), k=5; LaguerreRSI N in {2,3} / {2..5,10}, k=4/5, all comparison paths (up to the 20000-path cap, reported when hit); TrendFlex/ReFlex N in {3,4} / {3..6,10,16}, k=N+3; EFT N in {2,3} / {2,3,4}; PFE N in {3,4} / {3..6}, k=N+3; inputs unconstrained reals (|x|<=1 where the obligation is a 1e-5 tolerance); in addition TrendFlex, ReFlex, LaguerreRSI, EFT, PFE at N in {8,16} (quick) / {6,8,12,16,32}, k=N+6, along a sampled comparison path; CyberCycle and SuperSmoother also at N in {33,65,100} (quick) / {33,64,65,100,128,200} with k=N+12; EFT and PFE also at N in {35,68} (quick) / {35,37,48,68,99}, k=N+4, along a sampled comparison path",
         outside: vec!["window lengths and stream lengths beyond those listed", "f64 rounding", "TrendFlex/ReFlex below N=3 (the crate's window then holds fewer than the two previous smoother values the recursion reads)"],
         assumptions: vec!["reference coefficients use the same libm (exp, cos, sin of concrete arguments) as the crate, so a changed literal or formula shows as a different rational coefficient", "where the crate writes the truncated literal 4.4422 for 1.414*pi (SuperSmoother, Roofing) the obligation is |impl - spec| <= 1e-5 on |x| <= 1", "sqrt exact (axiomatised), ln uninterpreted with congruence"],
     }
